@@ -114,7 +114,8 @@ OnEvClose(m, ev) ==
       m3 == Check(m2, "C14.close_event_carries_the_cause",
                   marks = {} \/ m.closing \/
                     (ev.cause # "nil" /\ (m.kinds[ev.ep + 1] # "custom" \/ ev.cause = "injected")), ev)
-  IN [m3 EXCEPT !.closed = @ \cup {k}, !.pend = Put(@, pk, q2), !.disturbed = @ \cup {ev.ep},
+  \* a close event that is part of Close itself does not make the endpoint's history before Close any less steady
+  IN [m3 EXCEPT !.closed = @ \cup {k}, !.pend = Put(@, pk, q2), !.disturbed = IF m.closing THEN @ ELSE @ \cup {ev.ep},
                 !.closeTimes = Append(@, [ep |-> ev.ep, inst |-> ev.inst, t |-> ev.t, seq |-> ev.seq, cause |-> ev.cause, closing |-> m.closing])]
 
 OnEv(m, ev) ==
